@@ -8,6 +8,7 @@ from .smt import IS, VS, Val, I, B, ISq, VSq
 from .values import (VInt, VBool, VSeq, VNone, VTuple, VList, VRef, VAny, VConst, VRecord, VOpt, Unsupported, fresh,
                      parse_type, box, unbox, wt, wt_seq, sym_value, is_bytes_fact, mk_vsq)
 from .engine import Engine, State, Frame, Signal, exc_isa, lit_seq, ite_val, _ids
+from .values import OBJECTS
 from .calls import is_logger_call
 
 MUTATORS = {"append", "insert", "extend", "pop", "sort", "remove", "clear", "update", "setdefault", "seek", "read",
@@ -92,6 +93,9 @@ class Verifier(Engine):
                 dims.append([(name, "none"), (name, ty[1])])
             elif ty == "file":
                 dims.append([(name, "file:bytesio"), (name, "file:osfile")])
+            elif isinstance(ty, str) and ty.startswith("obj:") and any(
+                    f == "file" for f in OBJECTS.get(ty[4:], ({}, None))[0].values()):
+                dims.append([(name, ty + "@bytesio"), (name, ty + "@osfile")])
             elif isinstance(ty, str) and ty.startswith("lit:"):
                 dims.append([(name, ("lit", ast.literal_eval(x))) for x in ty[4:].split("|")])
             else:
@@ -122,9 +126,17 @@ class Verifier(Engine):
                 elif isinstance(ty, str) and ty.startswith("cstruct:"):
                     from .heapmodel import sym_cstruct
                     st.env[name] = sym_cstruct(self, st, name, ty)
+                elif isinstance(ty, str) and ty.startswith("newobj:"):
+                    ident = f"obj!{name}!{next(_ids)}"
+                    cls = ty[7:]
+                    st.heap[ident] = {"__kind__": "obj", "__class__": cls, "__module__": OBJECTS.get(cls, ({}, None))[1]}
+                    st.env[name] = VRef(ident, cls)
                 elif isinstance(ty, str) and ty.startswith("obj:"):
                     from .heapmodel import sym_object
-                    st.env[name] = sym_object(self, st, name, ty[4:])
+                    cls, _, fk = ty[4:].partition("@")
+                    st.env[name] = sym_object(self, st, name, cls, fk or "bytesio")
+                    if fk:
+                        label.append(f"{name}.fh={fk}")
                 elif isinstance(ty, tuple) and ty[0] == "record":
                     from .heapmodel import sym_record
                     v, facts = sym_record(self, st, ty[1], name)
@@ -202,6 +214,20 @@ class Verifier(Engine):
         for i, en in enumerate(c.ensures):
             t = self.truth(s, self.ev1(en, s))
             self.oblige(s, t, "post", i, info={"case": fr.case_label}, assume_after=False)
+        if c.initializes:
+            selfv = s.env[c.params[0][0]]
+            cell = s.heap.get(selfv.ident, {})
+            for fld, expr in c.initializes.items():
+                want = self.ev1(expr, s)
+                have = cell.get(fld)
+                if have is None:
+                    self.oblige(s, False, f"init-{fld}", "", info={"case": fr.case_label}, assume_after=False)
+                elif isinstance(want, VRef) or isinstance(have, VRef):
+                    same = isinstance(want, VRef) and isinstance(have, VRef) and want.ident == have.ident
+                    self.oblige(s, same, f"init-{fld}", "", info={"case": fr.case_label}, assume_after=False)
+                else:
+                    self.oblige(s, self.eq_vals(s, have, want), f"init-{fld}", "", info={"case": fr.case_label},
+                                assume_after=False)
         if not mentions_aes(c) and "aes_calls" in s.env and "aes_calls" in fr.init_state.env:
             t = s.env["aes_calls"].t == fr.init_state.env["aes_calls"].t
             if not z3.is_true(z3.simplify(t)):
